@@ -558,7 +558,7 @@ impl Rig for ClRig {
     fn runs(&self, tier: Tier) -> u64 {
         match tier {
             Tier::Quick => 120_000,
-            Tier::Thorough => 4_000_000,
+            Tier::Thorough => 12_000_000,
         }
     }
     fn gen(&self, rng: &mut Rng, _idx: u64, _tier: Tier) -> ClScenario {
